@@ -644,3 +644,34 @@ impl Query {
         }
     }
 }
+
+// ---------------------------------------------------------------------------------------------
+// A mesh that has been queried and then changed in place (moved, appended to) must answer like a mesh freshly built
+// from its current vertices and faces: nothing it remembered from earlier queries may survive the change.
+
+/// Closest-point queries on `m` decided against the exhaustive scan of `soup` (the mesh's CURRENT geometry).
+pub fn mesh_answers_for(site: &str, m: &engeom::Mesh, soup: &Soup, queries: &[Pt3], interior_ok: bool) -> Result<(), crate::fw::Failure> {
+    let scale = soup.size() + soup.max_abs();
+    let tol = 1e-9 * scale;
+    for q in queries {
+        let (dstar, _, _) = soup.closest(q);
+        let sp = match crate::fw::guarded(|| m.surf_closest_to(q)) {
+            Ok(s) => s,
+            Err(msg) => return Err(crate::fw::failure(format!("{site}/surf_closest_to/panic"), msg)),
+        };
+        let d = (sp.point - q).norm();
+        if interior_ok && d <= tol {
+            continue;
+        }
+        crate::ensure_r!((d - dstar).abs() <= tol, format!("{site}/not_global_optimum"), "after the change the reported closest point is {d:e} from the query, the exhaustive scan of the current faces gives {dstar:e}");
+        let on: Vec<usize> = (0..soup.f.len()).filter(|i| soup.dist_to_face(*i, &sp.point) <= tol).collect();
+        crate::ensure_r!(!on.is_empty(), format!("{site}/point_not_on_surface"), "after the change the reported point {:?} lies on no face of the current mesh", sp.point);
+        let nrm = sp.normal.into_inner();
+        let ok = on.iter().any(|i| {
+            let (a, b, c) = soup.tri(*i);
+            crate::oracle::tri_normal(&a, &b, &c).map(|n| (n - nrm).norm() <= 1e-7).unwrap_or(true)
+        });
+        crate::ensure_r!(ok, format!("{site}/normal_not_of_current_face"), "after the change the reported normal {:?} is not the normal of a current face containing the reported point (faces {:?})", nrm, on);
+    }
+    Ok(())
+}
